@@ -101,15 +101,20 @@ InputsFor(node, mode) == IF mode = "parse" THEN ParseInputs(node) ELSE ValueInpu
 StructTests == Sel({<<UT("const", 0, "st1"), UT("const", 0, "st2")>>}, {<<UT("const", 1, "st1"), UT("const", 1, "st2")>>},
                    {<<UT("const", 0, "st1"), UT("const", 0, "st2")>>, <<UT("const", 1, "st1"), UT("const", 1, "st2")>>})
 
-MkCase(mode, f1, f2, i1, i2, sts) ==
-  [id |-> "mc", mode |-> mode, fe |-> "map", pre |-> 0,
+\* destinations that were used before (pointers allocated, slices holding stale elements): only where there is a container
+RECURSIVE HasContainer(_)
+HasContainer(node) == node.k \in {"slice", "ptr"} \/ \E i \in DOMAIN node.kids : HasContainer(node.kids[i].node)
+PresFor(mode, f1, f2) == IF mode = "parse" /\ (HasContainer(f1) \/ HasContainer(f2)) THEN Sel({0}, {0, 2}, {0, 2}) ELSE {0}
+
+MkCase(mode, f1, f2, i1, i2, sts, pre) ==
+  [id |-> "mc", mode |-> mode, fe |-> "map", pre |-> pre,
    schema |-> Struct(<<Kid("a", NoTags, f1), Kid("b", NoTags, f2)>>, sts, <<"ok">>),
    input |-> Map(<<Ent("a", i1), Ent("b", i2)>>)]
 
 Init ==
   \E mode \in {"parse", "validate"}, f1 \in FieldVariants, f2 \in FieldVariants, sts \in StructTests :
-    \E i1 \in InputsFor(f1, mode), i2 \in InputsFor(f2, mode) :
-      StartOf(MkCase(mode, f1, f2, i1, i2, sts))
+    \E i1 \in InputsFor(f1, mode), i2 \in InputsFor(f2, mode), pre \in PresFor(mode, f1, f2) :
+      StartOf(MkCase(mode, f1, f2, i1, i2, sts, pre))
 
 \* the universe, described for the conformance harness (spec -> code replay): the harness forms
 \* the same cross product  mode x variant x variant x struct tests x inputs  that Init ranges over
